@@ -61,7 +61,7 @@ random variable/matrix samplers, list/formula/sum graders with Munkres matching)
 Your scratch git worktree of the library is at {wt} (already created, clean, detached HEAD). Work ONLY inside that
 directory (and /tmp for temporary files). Never touch /repo or /verif, and do not read anything under /verif.
 Run Python as /venv/bin/python (3.12; numpy, pyparsing and pytest are installed; scipy is NOT, so 36 tests fail on the
-unchanged tree and 364 pass - that is the baseline). Test command, from inside the worktree:
+unchanged tree and 365 pass - that is the baseline). Test command, from inside the worktree:
   /venv/bin/python -m pytest -q -p no:cacheprovider --timeout=900 --continue-on-collection-errors
 There is no network.
 
@@ -77,7 +77,7 @@ Code anchors: {anchors}
 
 YOUR TASK. Write ONE realistic change to the library source (under mitxgraders/, not the tests, not the docs) that
 BREAKS this property, while
-  * the library still imports and the existing test suite gives exactly the baseline result (364 passed, the same 36
+  * the library still imports and the existing test suite gives exactly the baseline result (365 passed, the same 36
     scipy-related failures) - run it and check the counts;
   * it looks like something a maintainer could plausibly commit (an optimisation, refactoring, tidy-up, feature tweak
     or bug "fix") - not sabotage, no special-casing of magic values, no dead code, no reference to testing;
